@@ -100,7 +100,7 @@ package signing_proposal_fsm
 //@   requires m != nil && m.payload != nil && m.payload.SigningProposalPayload != nil && wfDkgQ(m.payload) && injDkg(dkgQ(m.payload))
 //@   ensures[C05.reject,C06.reject,C18.reject] err != nil ==> unchanged("*internal.DumpedMachineStatePayload", "*internal.SigningConfirmation", "*internal.SigningProposalParticipant", "map[int]*internal.SigningProposalParticipant")
 //@   ensures[C06.start] err == nil ==> isStartReq(args) && outEvent == inEvent && sp(m) == old(sp(m)) && sp(m).BatchID == startReq(args).BatchID && len(sp(m).BatchID) > 0 && sp(m).InitiatorId == startReq(args).ParticipantId && sgnQ(m.payload) != nil && fresh(sgnQ(m.payload)) && (forall k int :: (k in sgnQ(m.payload)) == old(k in dkgQ(m.payload))) && len(sgnQ(m.payload)) == old(len(dkgQ(m.payload)))
-//@   ensures[C06.start.records] err == nil ==> (forall k int :: k in sgnQ(m.payload) ==> sgnQ(m.payload)[k] != nil && fresh(sgnQ(m.payload)[k]) && sgnQ(m.payload)[k].Status == internal.SigningAwaitPartialSigns && sgnQ(m.payload)[k].Username == old(dkgQ(m.payload)[k].Username) && sgnQ(m.payload)[k].Error == nil && sgnQ(m.payload)[k].PartialSigns == nil)
+//@   ensures[C06.start.records,C10.batch.fresh] err == nil ==> (forall k int :: k in sgnQ(m.payload) ==> sgnQ(m.payload)[k] != nil && fresh(sgnQ(m.payload)[k]) && sgnQ(m.payload)[k].Status == internal.SigningAwaitPartialSigns && sgnQ(m.payload)[k].Username == old(dkgQ(m.payload)[k].Username) && sgnQ(m.payload)[k].Error == nil && sgnQ(m.payload)[k].PartialSigns == nil)
 //@   ensures[C06.start.inj] err == nil ==> injSgn(sgnQ(m.payload))
 //@   ensures[C06.start.resp,C03.resp] err == nil ==> istype(response, responses.SigningPartialSignsParticipantInvitationsResponse) && response.(responses.SigningPartialSignsParticipantInvitationsResponse).BatchID == startReq(args).BatchID && response.(responses.SigningPartialSignsParticipantInvitationsResponse).SrcPayload == sp(m).SrcPayload
 //@   ensures[C06.keep] sp(m).ExpiresAt == old(sp(m).ExpiresAt) && sp(m).UpdatedAt == old(sp(m).UpdatedAt) && m.payload.Threshold == old(m.payload.Threshold) && m.payload.DKGProposalPayload == old(m.payload.DKGProposalPayload) && m.payload.PubKeys == old(m.payload.PubKeys) && m.payload.IDs == old(m.payload.IDs) && unchanged("*internal.DKGConfirmation", "map[int]*internal.DKGProposalParticipant", internal.DKGProposalParticipant.Status, internal.DKGProposalParticipant.Username, internal.DKGProposalParticipant.DkgMasterKey, "[]byte")
